@@ -49,6 +49,7 @@ ASSUMPTIONS = {
     "A10": "lru_trie.py is verified over the abstract stem sequence QS(0..QL-1), PRE(QL) = lru of the query; lru_iter and lru_dirname are verified at byte level against exactly that reading (contracts/helpers.py: LruIterSplit, LruDirnameSplit and its lemma). What remains assumed is the identification of the two views: the stems of a well-formed LRU are its separator-terminated pieces, and every stored key is such a piece (keys are only ever written from lru_iter yields)",
     "A12": "NEAR(a) (nearest webentity at or above a head) is a spec function of the current store defined by well-founded recursion on the parent pointer (parent[a] < a, invariant I2); its unfolding equation is assumed",
     "A13": "the two regular-expression wrappers Traph.__apply_webentity_creation_rule / __apply_webentity_default_creation_rule are trusted (python's re): abstracted by the spec functions RULE_MATCHES/RULE_MATCH(anchor, lru) and DEFAULT_MATCHES/DEFAULT_MATCH(lru) of an arbitrary fixed rule configuration; the ladder Traph.__add_page is verified against them and against the contracts of add_page, rules_to_apply, __create_webentity and refresh",
+    "A14": "facade-level contracts (groups ladder, prefixes, pagination, batch, batchlinks, network, hierarchy, cited) verify a function of traph.py against STUB contracts of what it calls, the trie and the link store being abstract: a traversal or link walk is ANY finite sequence (so nothing is assumed about which items it yields), a lookup answers found / not found, accessors return uninterpreted values of the item in hand. The stubs state no more than the callee's own discharged contract with two exceptions that are assumed: (i) the regular-expression wrappers (A13); (ii) in the hierarchy group, a prefix node whose pruning mark says 'no child webentity' has no webentity below it (invariant I9 of contracts/trie.py read through dfs_iter, whose 'every head once' half is bounded only). The composition 'stub sequence = what the real traversal yields' is by construction of the call, not proved",
     "A11": "tail blocks appended by LRUTrieNode.write land beyond the old end of the store, where no premise constrains the arrays: modelled as already present (contracts/node.py Write.apply)",
 }
 
